@@ -737,6 +737,19 @@ func runC02(r *Run) {
 	// of x/evm/statedb is part of this property too — the same rule code as C05 R4
 	r.Rule("R13", "see C05 R10 (imported): what a mid-transaction StateDB.Commit (the flush every precompile starts with) wrote is rewritten by the next Commit even when a reverted frame removed the address from the journal's dirty set — otherwise a payment made in a frame that calls a precompile and reverts stays with the payee while the payer's balance is restored by minting")
 	r.Import("R13/C05.", []string{"R10"}, runC05)
+	r.Rule("R15", "PATH.absence-is-asked-afresh: precompiles create accounts behind the StateDB's back (a bank credit to a fresh withdraw address, a new validator's pool share), so 'this address has no account' is a fact about the SDK state that the StateDB may not remember: getStateObject answers nil only on a path on which this very invocation asked the keeper (GetAccount) — with a remembered absence, value sent to the address later in the transaction goes through CreateAccount with balance 0 and Commit overwrites what the precompile credited")
+	if gso, ok := P.FnOK("(*x/evm/statedb.StateDB).getStateObject"); ok {
+		isAsk := isCallMatching(func(ci CallInfo) bool { return ci.Name == "GetAccount" && ci.Invoke })
+		w := PathQuery{Fn: gso, Block: isAsk, Target: func(in ssa.Instruction) bool {
+			ret, ok := in.(*ssa.Return)
+			return ok && len(ret.Results) == 1 && isNilConst(ret.Results[0])
+		}}.Search()
+		nAsk := len(findCalls(gso, func(ci CallInfo) bool { return ci.Name == "GetAccount" && ci.Invoke }))
+		r.Check(w == nil && nAsk >= 1, "R15", fnID(gso)+"#nil-only-after-asking-the-keeper", P.Pos(fnPos(gso)), "every `return nil` follows a keeper.GetAccount of this invocation",
+			"getStateObject can answer 'no such account' without asking the keeper (a remembered absence): an account a precompile created in the meantime is invisible to the EVM, is re-created empty by the next value transfer, and its balance is overwritten at Commit", P.witness(w)...)
+	} else {
+		r.Bad("R15", "anchor/StateDB.getStateObject", "", "not found")
+	}
 	r.Rule("R14", "PATH.per-token-precompile-moves-are-mirrored: the ERC-20 / WERC-20 precompiles (instantiated per token pair, not through the static registry) move bank coins of the pair's denomination with a bank MsgSend or an authz dispatch — and for the pair of the native coin (WISLM) that denomination is the one the StateDB caches. In every function of these packages that receives the StateDB and performs such a move, every success exit after the move passes a StateDB.SubBalance and a StateDB.AddBalance (the mirror, as werc20.Deposit has it); without it a journal-dirty sender is written back with its stale balance at Commit and the transferred amount is minted")
 	{
 		n := 0
